@@ -1,7 +1,7 @@
 SPECIFICATION Spec
 CONSTANTS
   MaxArity = 7
-  Deep = FALSE
+  Deep = TRUE
 INVARIANT RoutesAgree
 INVARIANT PotableArityChecked
 INVARIANT Terminates
